@@ -17,6 +17,7 @@ sampled parameter values as an independent reference set (simverif.regionref):
 import hashlib
 import itertools
 import json
+import traceback
 from fractions import Fraction
 
 import numpy as np
@@ -25,7 +26,7 @@ from .. import regionref as rr
 from ..seams import SeededRNG, TreeTooLarge, patched_random, walk_tree
 
 STRATA = 12
-PTS = [(0.5 * i, 0.5 * j) for i in range(-3, 4) for j in range(-3, 4)]
+PTS = [(0.6 * i, 0.6 * j) for i in range(-2, 3) for j in range(-2, 3)]
 
 
 class Var:
@@ -56,7 +57,7 @@ class Prog:
         if len(self.vars) >= self.max_vars or t.draw(odds, f"{self.tag}{label}?") != odds - 1:
             return Const(base)
         name, how = f"v{len(self.vars)}", t.draw(3, f"{self.tag}{label}dist")
-        if how == 0:
+        if how == 0 or (how == 1 and any("Range(" in v.decl and "Discrete" not in v.decl for v in self.vars)):  # at most one Range
             opts = [round(base + step * k, 6) for k in range(2 + t.draw(2, f"{self.tag}{label}n"))]
             v = Var(name, "Uniform(" + ", ".join(map(repr, opts)) + ")", opts)
         elif how == 1:
@@ -93,7 +94,7 @@ class Prog:
 
 
 def make_program(t, tag):
-    op = ["prim", "ps", "ps", "grid", "intersect", "difference", "union"][t.draw(7, tag + "op")]
+    op = ["prim", "ps", "ps", "grid", "intersect", "difference", "ps", "intersect", "difference", "union"][t.draw(10, tag + "op")]
     discrete = op in ("ps", "grid")
     g = Prog(t, tag, 2 if discrete else 3)
     z0 = [0.0, 1.25][t.draw(2, tag + "z0")] if op != "grid" else 0.0
@@ -105,7 +106,7 @@ def make_program(t, tag):
     lines = [f"{v.name} = {v.decl}" for v in g.vars]
     if discrete:
         mask = t.draw(1 << 20, tag + "mask") | 0x1010101
-        pts = [(a, b, z0) for i, (a, b) in enumerate(PTS) if mask >> (i % 20) & 1 or i % 3 == 0]
+        pts = [(a, b, z0) for i, (a, b) in enumerate(PTS) if mask >> (i % 20) & 1 or i % 6 == 0]
         if op == "ps":
             lines.append(f"S = PointSetRegion('ps', {pts!r})")
             sref = rr.PtsRef(pts)
@@ -126,12 +127,13 @@ def make_program(t, tag):
     place = t.draw(3, tag + "place")
     lines.append(["pt = new Point in reg", "pt = new Point on reg", "pt = new Object in reg, with width 0.1, with length 0.1, with height 0.1"][place])
     lines += ["param pos = pt.position"] + [f"param {v.name} = {v.name}" for v in g.vars]
-    return {"src": "\n".join(lines) + "\n", "op": op, "kinds": k1, "vars": g.vars, "build": build, "discrete": discrete, "place": ["in", "on", "object"][place]}
+    return {"src": "\n".join(lines) + "\n", "op": op, "kinds": k1, "vars": g.vars, "build": build, "discrete": discrete, "npts": len(sref.p) if discrete else 0, "place": ["in", "on", "object"][place]}
 
 
 def run_lazy(tape, base):
     import scenic
     from scenic.core.distributions import RejectionException
+    from scenic.core.errors import InvalidScenarioError
 
     stats, violations, steps, refused = {"workload:lazy-regions-across-scenes": 1}, [], 0, None
     progs = [make_program(tape, "P0.")] + ([make_program(tape, "P1.")] if tape.draw(2, "two-scenarios") else [])
@@ -143,12 +145,20 @@ def run_lazy(tape, base):
         stats["lazy:region:" + p["kinds"]] = stats.get("lazy:region:" + p["kinds"], 0) + 1
         stats["lazy:place:" + p["place"]] = stats.get("lazy:place:" + p["place"], 0) + 1
         stats["lazy:random-parameters"] = stats.get("lazy:random-parameters", 0) + len(p["vars"])
-    try:
-        for p in progs:
+    lib = lambda e: any(s in traceback.extract_tb(e.__traceback__)[-1].filename for s in ("/scenic/", "/shapely/", "/trimesh/"))  # noqa: E731
+    for p in list(progs):  # a program the library cannot build (e.g. union of lazy polygons recurses forever) is counted and dropped
+        try:
             p["scenario"] = scenic.scenarioFromString(p["src"], mode2D=False)
+        except (NotImplementedError, AttributeError, TypeError, ValueError, RecursionError, InvalidScenarioError) as e:
+            if not lib(e):  # InvalidScenarioError: the composed region is empty for fixed operands ("placed in empty region")
+                raise
+            stats[f"library-refused:{type(e).__name__}"] = stats["unjudged:library-refused"] = 1
+            refused = f"{type(e).__name__}: {e}"[:200]
+            progs.remove(p)
+    try:
         np.random.seed(seed % (1 << 32))
         with patched_random(SeededRNG(seed)):  # (a) consecutive scenes, scenarios interleaved
-            for i in range(nscenes * len(progs)):
+            for i in range(nscenes * len(progs)):  # no program left: nothing to do
                 p = progs[i % len(progs)]
                 try:
                     scene, _ = p["scenario"].generate(maxIterations=60, verbosity=0)
@@ -168,8 +178,7 @@ def run_lazy(tape, base):
                 violations += exact_per_value(p, base, stats, seed)
                 dig.update(repr(p.get("lawdigest")).encode())
     except (NotImplementedError, AttributeError, TypeError, ValueError, ZeroDivisionError, RecursionError) as e:
-        import traceback
-        if not any(s in traceback.extract_tb(e.__traceback__)[-1].filename for s in ("/scenic/", "/shapely/", "/trimesh/")):
+        if not lib(e):
             raise
         stats[f"library-refused:{type(e).__name__}"] = stats["unjudged:library-refused"] = 1
         refused = f"{type(e).__name__}: {e}"[:200]
@@ -188,9 +197,12 @@ def exact_per_value(p, base, stats, seed):
             return None
         return tuple(round(float(scene.params[v.name]), 9) for v in p["vars"]), base.key9(base.xyz(scene.params["pos"]))
 
-    groups = {}
+    groups, size = {}, int(np.prod([len(v.support) for v in p["vars"]])) * p["npts"]
+    if size > (250 if p["kinds"] == "box" else 2500):  # mesh containment makes every scene of a box program expensive
+        stats["unjudged:exact-law-tree-too-large-or-nonexact"] = 1
+        return []
     try:
-        for out, pr, rng in walk_tree(execute, strata=STRATA, max_leaves=6000):
+        for out, pr, rng in walk_tree(execute, strata=STRATA, max_leaves=3000):
             if rng.nonexact:
                 raise TreeTooLarge
             if out is not None:
